@@ -10,7 +10,7 @@ RULE = ("histories of <= 8 loads over good file A / good file B (other sections)
         "successful and >= 1 failed load")
 ASSUMPTIONS = ["observation granularity is the line-read point stated in the property (bytecode-level races inside one dict access are outside it)",
                "thorough tier adds a real concurrent reader thread (old-or-new only)"]
-GEN_TIE = "file"   # Database.load / _replace, the file parser it runs and the read side (iter_values, get_random, __len__) are also TRANSLATED (translate/file2coq.py + db2coq.py) on every run and proved to refine the atomic load specification (Gen/GenDbP.v: gen_load_eq, gen_load_keeps_invariants)
+GEN_TIE = ["file", "eff"]   # ("eff": translate/eff2coq.py - Database.load writes only its own object, the readers write nothing: Gen/GenEffP.v gen_database_load_writes_only_self, gen_database_readers_write_nothing) Database.load / _replace, the file parser it runs and the read side (iter_values, get_random, __len__) are also TRANSLATED (translate/file2coq.py + db2coq.py) on every run and proved to refine the atomic load specification (Gen/GenDbP.v: gen_load_eq, gen_load_keeps_invariants)
 EXHAUSTIVE = {"fault position: every line of the sampled good files": True}
 
 
